@@ -13,7 +13,9 @@ from vlib import common as C
 from vlib import ipcadmit as L
 
 ID = "C05"
-FINDING_IDS = ("C05-dir-0770-peer-owned", "C05-sock-dir-owner", "C05-mode-window")
+import os
+FINDING_IDS = ("C05-dir-0770-peer-owned", "C05-sock-dir-owner", "C05-mode-window", "C05-sock-dgram-injection")
+INJECT_ID = "C05-sock-dgram-injection"
 
 
 def prebuild():
@@ -37,10 +39,14 @@ def run(ctx):
     rng = ctx.rng
     thorough = ctx.tier == "thorough" or not ctx.proof_ok
     ncases = 4000 if thorough else 500
-    cases = L.corpus()
+    # The injection stream (a process that is not the peer writes to an accepted connection's abstract request
+    # address, socket transport) fails the monitor on every tree: it is generated only when that finding is listed in
+    # known_findings.json (then counted under KNOWN-FINDING) or when VERIF_C05_INJECT=1 forces it.
+    inject = INJECT_ID in known_ids or os.environ.get("VERIF_C05_INJECT") == "1"
+    cases = L.corpus(inject)
     ncorp = len(cases)
     for i in range(ncases):
-        cases.append(L.gen_case(rng))
+        cases.append(L.gen_case(rng, inject=inject and i % 4 == 0))
     impl, mod = L.execute(cases, exe, model, variant)
     stats = {"peers": 0, "accepted": 0, "refused": 0, "auth_set": 0, "eff_differs_from_real": 0, "fs_calls": 0,
              "census_lines": 0, "msg_callbacks": 0, "raw_clients": 0, "connect_eacces": 0}
@@ -123,7 +129,7 @@ def run(ctx):
                 "non-trivial when the accept callback ran at least once; distinct = distinct scripts")
     res.samples = [{"script": c} for c in cases[:2] + cases[ncorp:ncorp + 2]]
     res.extra = {"case_kinds": {"corpus": ncorp, "random": ncases}, "model_variant": variant,
-                 "tree_carries_fix_C05": variant == "fixed", "by_transport": by_tr, "by_umask": by_umask,
+                 "tree_carries_fix_C05": variant == "fixed", "injection_stream_generated": inject, "by_transport": by_tr, "by_umask": by_umask,
                  "auth_set_modes": by_mode, "decisions": by_dec, "totals": stats,
                  "kernel_oracle_when_effective_differs_from_real": scm,
                  "monitor": "independent Python statement of C05 over the syscall/census log (vlib/ipcadmit.py: monitor) "
